@@ -11,7 +11,7 @@ import (
 
 func init() {
 	props["C05"] = &propDef{
-		rule: "cases = random histories of sample additions to fragments: 1..4 tracks (incl. tracks that receive no sample in a fragment), 1..4 fragments per segment, per fragment one of the modes {AddFullSample (1 track), AddFullSampleToTrack interleaved, AddSampleToTrack/AddSamples with separately written data, AddSampleInterval}, equal/unequal durations, sizes, flags, composition offsets (to hit every trun optimisation branch), EncOptimize on/off, Encode vs EncodeSW, extra boxes (emsg, prft, free, uuid, unknown) in moof/traf and between fragments; the encoded segment is decoded with its init (both decode paths) and every track's samples are read back; non-trivial = distinct history with >= 2 samples in some track",
+		rule: "cases = random histories of sample additions to fragments: 1..4 tracks (incl. tracks that receive no sample in a fragment), 1..4 fragments per segment, per fragment one of the modes {AddFullSample (1 track), AddFullSampleToTrack interleaved, AddSampleToTrack/AddSamples with separately written data, AddSampleInterval}, equal/unequal durations, sizes, flags, composition offsets (to hit every trun optimisation branch), EncOptimize on/off, Encode vs EncodeSW, extra boxes (emsg, prft, free, uuid, unknown) in moof/traf and between fragments; the slice APIs are called with 1..n batches per run and the caller keeps using its own slices like a packager does (buf: fresh slice per call | one batch buffer re-used for every call and overwritten after the last one | windows of one long array with live data in the spare capacity; FullSample.Data buffers likewise), the expected samples being the values that were added; a step sequence over {Size, Info, caller-run OptimizeTfhdTrun, Encode, EncodeSW} (2..5 steps, any order, repeated) is applied to ONE built segment and every output written must read back; the encoded segment is decoded with its init (both decode paths) and every track's samples are read back; single runs go through 0..3 optimisation passes (re-encoded fragment) against the Lean model; non-trivial = distinct history with >= 2 samples in some track",
 		gen:  genC05,
 		exec: execC05,
 	}
@@ -28,21 +28,42 @@ type fragSpec struct {
 	mode   string // full1 | fullmt | lazy | lazyss | itvl
 	extras string // combination of letters: e(emsg) p(prft) f(free in moof) u(uuid in traf) x(unknown in traf) b(free between)
 	ops    []fragOp
+	cut    map[int]bool // slice APIs (AddSamples / AddSampleInterval): a new batch (a new call) starts with op k (written "...:c")
 }
 type history struct {
 	ntracks int
 	opt     bool
 	enc     string
 	frags   []fragSpec
+	// what the caller does with the slices it hands to the addition APIs (value semantics: what counts is what was added):
+	// "" / f = a fresh slice per call; r = one batch buffer re-used for every call (overwritten by the next batch and
+	// scribbled over after the last call, before Encode); a = windows of one long array (spare capacity behind every window
+	// holds other batches that are still live)
+	buf string
+	// steps applied, in order, to the SAME built segment: w = Encode, s = EncodeSW, z = Size(), i = Info,
+	// o = the caller runs TrafBox.OptimizeTfhdTrun itself (as Fragment.Encode does: first traf of every fragment);
+	// every output written must read back the samples added
+	seq string
 }
 
 func (h *history) line() string {
 	var p []string
-	p = append(p, fmt.Sprintf("frag %d %s %s", h.ntracks, b01(h.opt), h.enc))
+	hdr := fmt.Sprintf("frag %d %s %s", h.ntracks, b01(h.opt), h.enc)
+	if h.buf != "" {
+		hdr += " buf=" + h.buf
+	}
+	if h.seq != "" {
+		hdr += " seq=" + h.seq
+	}
+	p = append(p, hdr)
 	for _, f := range h.frags {
 		s := []string{f.mode, f.extras}
-		for _, o := range f.ops {
-			s = append(s, fmt.Sprintf("%d:%d:%d:%d:%d", o.track, o.dur, o.size, o.flags, o.cto))
+		for k, o := range f.ops {
+			x := fmt.Sprintf("%d:%d:%d:%d:%d", o.track, o.dur, o.size, o.flags, o.cto)
+			if f.cut[k] {
+				x += ":c"
+			}
+			s = append(s, x)
 		}
 		p = append(p, strings.Join(s, " "))
 	}
@@ -53,11 +74,24 @@ func parseHistory(req string) *history {
 	parts := strings.Split(req, " | ")
 	f0 := strings.Fields(parts[0])
 	h := &history{ntracks: atoi(f0[1]), opt: f0[2] == "1", enc: f0[3]}
+	for _, kv := range f0[4:] {
+		if strings.HasPrefix(kv, "buf=") {
+			h.buf = kv[4:]
+		} else if strings.HasPrefix(kv, "seq=") {
+			h.seq = kv[4:]
+		}
+	}
 	for _, p := range parts[1:] {
 		f := strings.Fields(p)
 		fs := fragSpec{mode: f[0], extras: f[1]}
 		for _, o := range f[2:] {
 			x := strings.Split(o, ":")
+			if len(x) > 5 {
+				if fs.cut == nil {
+					fs.cut = map[int]bool{}
+				}
+				fs.cut[len(fs.ops)] = true
+			}
 			fs.ops = append(fs.ops, fragOp{atoi(x[0]), uint32(atoi(x[1])), uint32(atoi(x[2])), uint32(atoi(x[3])), int32(atoi(x[4]))})
 		}
 		h.frags = append(h.frags, fs)
@@ -86,6 +120,86 @@ type built struct {
 	lazy    [][]byte // per fragment: data to write after the fragment (metadata-only modes), else nil
 }
 
+// callerBufs: the slices the caller hands to the addition APIs (history.buf). The library is given exactly the values
+// that were added; afterwards the slices are the caller's own again and are re-used like a real packager re-uses them.
+type callerBufs struct {
+	mode   string
+	batch  []mp4.Sample // r: the one []Sample batch buffer
+	data   []byte       // r: the one sample-data buffer (full-sample APIs, which copy the data into the mdat)
+	arena  []mp4.Sample // a: one long array; windows are handed out from its end towards its start, so the spare
+	apos   int          //    capacity behind a window holds the batches handed out before (still live for the caller)
+	darena []byte
+	dpos   int
+}
+
+func newCallerBufs(h *history) *callerBufs {
+	cb := &callerBufs{mode: h.buf}
+	n, nb := 0, 0
+	for _, f := range h.frags {
+		for _, o := range f.ops {
+			n++
+			nb += int(o.size)
+		}
+	}
+	switch h.buf {
+	case "r":
+		cb.batch = make([]mp4.Sample, 0, 16)
+		cb.data = make([]byte, 0, 64)
+	case "a":
+		cb.arena, cb.apos = make([]mp4.Sample, n), n
+		cb.darena, cb.dpos = make([]byte, nb), nb
+	}
+	return cb
+}
+
+// samples returns the slice the caller passes to a slice API for the batch ss
+func (cb *callerBufs) samples(ss []mp4.Sample) []mp4.Sample {
+	switch cb.mode {
+	case "r":
+		cb.batch = append(cb.batch[:0], ss...)
+		return cb.batch
+	case "a":
+		i := cb.apos - len(ss)
+		w := cb.arena[i:cb.apos] // cap(w) reaches the end of the arena
+		copy(w, ss)
+		cb.apos = i
+		return w
+	}
+	return ss
+}
+
+// bytes returns the Data slice the caller puts into a FullSample (AddFullSample / AddFullSampleToTrack copy it).
+// SampleInterval.Data is NOT re-used: AddSampleInterval keeps it by reference by design (MdatBox.AddSampleDataPart).
+func (cb *callerBufs) bytes(d []byte) []byte {
+	switch cb.mode {
+	case "r":
+		cb.data = append(cb.data[:0], d...)
+		return cb.data
+	case "a":
+		i := cb.dpos - len(d)
+		w := cb.darena[i:cb.dpos]
+		copy(w, d)
+		cb.dpos = i
+		return w
+	}
+	return d
+}
+
+// scribble: after its last call the caller uses its re-usable buffers for something else
+func (cb *callerBufs) scribble() {
+	if cb.mode != "r" {
+		return
+	}
+	b := cb.batch[:cap(cb.batch)]
+	for i := range b {
+		b[i] = mp4.Sample{Flags: 0x00aa0000, Dur: 77, Size: 1, CompositionTimeOffset: -5}
+	}
+	d := cb.data[:cap(cb.data)]
+	for i := range d {
+		d[i] = 0xee
+	}
+}
+
 func buildHistory(h *history) (*built, error) {
 	b := &built{added: map[int][]addedSample{}}
 	b.init = mp4.CreateEmptyInit()
@@ -96,6 +210,7 @@ func buildHistory(h *history) (*built, error) {
 	if h.opt {
 		b.seg.EncOptimize = mp4.OptimizeTrun
 	}
+	cb := newCallerBufs(h)
 	next := map[int]uint64{}
 	cnt := map[int]int{}
 	for t := 1; t <= h.ntracks; t++ {
@@ -120,12 +235,35 @@ func buildHistory(h *history) (*built, error) {
 			frag.EncOptimize = mp4.OptimizeTrun
 		}
 		var lazyData []byte
-		var itvlSamples []mp4.Sample
-		var itvlData []byte
-		var itvlFirst uint64
-		var ssSamples []mp4.Sample
-		var ssFirst uint64
-		for _, o := range fs.ops {
+		// slice APIs: the batch being collected (a batch = one AddSamples / AddSampleInterval call)
+		var pend []mp4.Sample
+		var pendData []byte
+		var pendFirst uint64
+		flush := func() error {
+			if len(pend) == 0 {
+				return nil
+			}
+			ss, first, data := pend, pendFirst, pendData
+			pend, pendData = nil, nil
+			if fs.mode == "itvl" {
+				return frag.AddSampleInterval(mp4.SampleInterval{FirstDecodeTime: first, Samples: cb.samples(ss), Data: data})
+			}
+			if fs.cut == nil {
+				// in two calls when there are several samples (the second call meets a fragment that already holds samples)
+				if k := len(ss) / 2; k > 0 && (len(ss)+fi)%2 == 0 {
+					frag.AddSamples(cb.samples(ss[:k]), first)
+					var d uint64
+					for _, x := range ss[:k] {
+						d += uint64(x.Dur)
+					}
+					frag.AddSamples(cb.samples(ss[k:]), first+d)
+					return nil
+				}
+			}
+			frag.AddSamples(cb.samples(ss), first)
+			return nil
+		}
+		for k, o := range fs.ops {
 			tr := o.track
 			if fs.mode == "full1" || fs.mode == "itvl" || fs.mode == "lazyss" || h.ntracks == 1 {
 				tr = 1
@@ -135,9 +273,9 @@ func buildHistory(h *history) (*built, error) {
 			dec := next[tr]
 			switch fs.mode {
 			case "full1":
-				frag.AddFullSample(mp4.FullSample{Sample: s, DecodeTime: dec, Data: d})
+				frag.AddFullSample(mp4.FullSample{Sample: s, DecodeTime: dec, Data: cb.bytes(d)})
 			case "fullmt":
-				if err := frag.AddFullSampleToTrack(mp4.FullSample{Sample: s, DecodeTime: dec, Data: d}, uint32(tr)); err != nil {
+				if err := frag.AddFullSampleToTrack(mp4.FullSample{Sample: s, DecodeTime: dec, Data: cb.bytes(d)}, uint32(tr)); err != nil {
 					return nil, err
 				}
 			case "lazy":
@@ -145,40 +283,28 @@ func buildHistory(h *history) (*built, error) {
 					return nil, err
 				}
 				lazyData = append(lazyData, d...)
-			case "lazyss":
-				if len(ssSamples) == 0 {
-					ssFirst = dec
+			case "lazyss", "itvl":
+				if fs.cut[k] {
+					if err := flush(); err != nil {
+						return nil, err
+					}
 				}
-				ssSamples = append(ssSamples, s)
-				lazyData = append(lazyData, d...)
-			case "itvl":
-				if len(itvlSamples) == 0 {
-					itvlFirst = dec
+				if len(pend) == 0 {
+					pendFirst = dec
 				}
-				itvlSamples = append(itvlSamples, s)
-				itvlData = append(itvlData, d...)
+				pend = append(pend, s)
+				if fs.mode == "lazyss" {
+					lazyData = append(lazyData, d...)
+				} else {
+					pendData = append(pendData, d...)
+				}
 			}
 			b.added[tr] = append(b.added[tr], addedSample{s, dec, d})
 			next[tr] += uint64(o.dur)
 			cnt[tr]++
 		}
-		if fs.mode == "itvl" && len(itvlSamples) > 0 {
-			if err := frag.AddSampleInterval(mp4.SampleInterval{FirstDecodeTime: itvlFirst, Samples: itvlSamples, Data: itvlData}); err != nil {
-				return nil, err
-			}
-		}
-		if fs.mode == "lazyss" && len(ssSamples) > 0 {
-			// in two calls when there are several samples (the second call meets a fragment that already holds samples)
-			if k := len(ssSamples) / 2; k > 0 && (len(ssSamples)+fi)%2 == 0 {
-				frag.AddSamples(ssSamples[:k], ssFirst)
-				var d uint64
-				for _, x := range ssSamples[:k] {
-					d += uint64(x.Dur)
-				}
-				frag.AddSamples(ssSamples[k:], ssFirst+d)
-			} else {
-				frag.AddSamples(ssSamples, ssFirst)
-			}
+		if err := flush(); err != nil {
+			return nil, err
 		}
 		// extra boxes
 		for _, ch := range fs.extras {
@@ -203,6 +329,7 @@ func buildHistory(h *history) (*built, error) {
 		}
 		b.seg.AddFragment(frag)
 	}
+	cb.scribble()
 	return b, nil
 }
 
@@ -304,11 +431,14 @@ func sameSamples(a, b []addedSample) string {
 }
 
 // trun.rt <opt> <trexDur:trexSize:trexFlags> <flags:dur:size:cto>... : one run through optimise/encode/decode/resolve
+// <opt> = number of OptimizeTfhdTrun passes the run has gone through when the inspected output is written:
+// 0 none; 1 Encode; 2 Encode, then EncodeSW of the same fragment (second output inspected);
+// 3 explicit OptimizeTfhdTrun + Size(), EncodeSW, then Encode (last output inspected)
 func trunRT(f []string) string {
-	opt := f[1] == "1"
+	passes := atoi(f[1])
 	tx := strings.Split(f[2], ":")
 	frag, _ := mp4.CreateFragment(1, 1)
-	if opt {
+	if passes > 0 {
 		frag.EncOptimize = mp4.OptimizeTrun
 	}
 	dec := uint64(5000)
@@ -319,8 +449,29 @@ func trunRT(f []string) string {
 		dec += uint64(s.Dur)
 	}
 	var buf bytes.Buffer
-	if err := frag.Encode(&buf); err != nil {
-		return "bad-op" // the model returns none for "no samples in trun"
+	if passes == 3 {
+		if err := frag.Moof.Traf.OptimizeTfhdTrun(); err != nil {
+			return "bad-op"
+		}
+	}
+	if passes >= 2 {
+		sw := bits.NewFixedSliceWriter(int(frag.Size()))
+		if passes == 2 {
+			if err := frag.Encode(&buf); err != nil {
+				return "bad-op"
+			}
+			buf.Reset()
+		}
+		if err := frag.EncodeSW(sw); err != nil {
+			return "bad-op"
+		}
+		buf.Write(sw.Bytes())
+	}
+	if passes != 2 {
+		buf.Reset()
+		if err := frag.Encode(&buf); err != nil {
+			return "bad-op" // the model returns none for "no samples in trun"
+		}
 	}
 	box, err := mp4.DecodeBox(0, bytes.NewReader(buf.Bytes()))
 	if err != nil {
@@ -358,6 +509,56 @@ func trunRT(f []string) string {
 	return hdr + " " + strings.Join(ss, " ")
 }
 
+type seqIssue struct{ kind, what, got string }
+
+// runSeq builds the history once more and applies h.seq to that one segment object; every output is read back
+func runSeq(h *history, initBytes []byte) (issues []seqIssue) {
+	b3, err := buildHistory(h)
+	if err != nil {
+		return []seqIssue{{"build", "", err.Error()}}
+	}
+	for k, st := range h.seq {
+		at := fmt.Sprintf("step %d of %q on one segment object: ", k+1, h.seq)
+		switch st {
+		case 'z':
+			_ = b3.seg.Size()
+			for _, f := range b3.seg.Fragments {
+				_ = f.Size()
+			}
+		case 'i':
+			var ibuf bytes.Buffer
+			_ = b3.seg.Info(&ibuf, "all:1", "", "  ")
+		case 'o':
+			for _, f := range b3.seg.Fragments {
+				if f.Moof != nil && f.Moof.Traf != nil {
+					if err := f.Moof.Traf.OptimizeTfhdTrun(); err != nil {
+						issues = append(issues, seqIssue{"optimize-seq", at + "OptimizeTfhdTrun fails on a traf that holds samples", err.Error()})
+					}
+				}
+			}
+		case 'w', 's':
+			out, err := b3.encode(map[rune]string{'w': "w", 's': "sw"}[st])
+			if err != nil {
+				issues = append(issues, seqIssue{"encode-seq", at + "encoding fails", err.Error()})
+				continue
+			}
+			for _, sr := range []bool{false, true} {
+				got, err := readBack(initBytes, out, sr, h.ntracks)
+				if err != nil {
+					issues = append(issues, seqIssue{"decode-seq", at + "the output does not decode with its init", err.Error()})
+					continue
+				}
+				for t := 1; t <= h.ntracks; t++ {
+					if d := sameSamples(b3.added[t], got[t]); d != "" {
+						issues = append(issues, seqIssue{"readback-seq", at + fmt.Sprintf("track %d samples read back differ from the samples added (sliceReader=%v): %s", t, sr, d), d})
+					}
+				}
+			}
+		}
+	}
+	return issues
+}
+
 func execC05(req string) string {
 	if strings.HasPrefix(req, "trun.rt ") {
 		var out string
@@ -390,6 +591,11 @@ func execC05(req string) string {
 		for t := 1; t <= h.ntracks; t++ {
 			if d := sameSamples(b.added[t], got[t]); d != "" {
 				res = append(res, fmt.Sprintf("track%d:%s", t, d))
+			}
+		}
+		if h.seq != "" {
+			for _, is := range runSeq(h, ib.Bytes()) {
+				res = append(res, is.kind+":"+strings.ReplaceAll(is.what+" "+is.got, " ", "_"))
 			}
 		}
 		out = strings.Join(res, " ")
@@ -469,6 +675,35 @@ func genHistory(c *Ctx) *history {
 	return h
 }
 
+// decorateHistory adds the dimensions only C05 looks at (C02/C03 share genHistory): how the caller treats the slices it
+// passes to the addition APIs, how the slice APIs' samples are cut into calls, and which steps (Size / Info / explicit
+// optimisation / Encode / EncodeSW, several times, in any order) are applied to the one built segment
+func decorateHistory(c *Ctx, h *history) {
+	r := c.R
+	h.buf = []string{"f", "r", "r", "a"}[r.Intn(4)]
+	for i := range h.frags {
+		fs := &h.frags[i]
+		if (fs.mode == "lazyss" || fs.mode == "itvl") && len(fs.ops) > 1 && r.Intn(4) > 0 {
+			cut := map[int]bool{}
+			for k := 1; k < len(fs.ops); k++ {
+				if r.Intn(3) == 0 {
+					cut[k] = true
+				}
+			}
+			if len(cut) > 0 {
+				fs.cut = cut
+			}
+		}
+	}
+	n := 2 + r.Intn(4)
+	seq := make([]byte, n)
+	for k := range seq {
+		seq[k] = "wwssszoi"[r.Intn(8)]
+	}
+	seq[n-1] = "ws"[r.Intn(2)] // the sequence ends with an output
+	h.seq = string(seq)
+}
+
 func genC05(c *Ctx) {
 	// single-run correspondence with the Lean model of optimise / wire / resolve
 	for it := 0; it < c.N(4000, 80000); it++ {
@@ -500,7 +735,7 @@ func genC05(c *Ctx) {
 			}
 			ss = append(ss, fmt.Sprintf("%d:%d:%d:%d", fl, pick([]int{1000, 3000, 0, 4001}, sameD, d0), pick([]int{0, 10, 40, 7}, sameS, s0), cto))
 		}
-		req := fmt.Sprintf("trun.rt %d %d:%d:%d %s", r.Intn(2), []int{0, 1000}[r.Intn(2)], []int{0, 10}[r.Intn(2)], []int{0, 0x01010000}[r.Intn(2)], strings.Join(ss, " "))
+		req := fmt.Sprintf("trun.rt %d %d:%d:%d %s", []int{0, 1, 1, 2, 2, 3}[r.Intn(6)], []int{0, 1000}[r.Intn(2)], []int{0, 10}[r.Intn(2)], []int{0, 0x01010000}[r.Intn(2)], strings.Join(ss, " "))
 		res := execC05(req)
 		c.Case(req, res)
 		c.Eval(req)
@@ -513,6 +748,7 @@ func genC05(c *Ctx) {
 	n := c.N(2500, 60000)
 	for it := 0; it < n; it++ {
 		h := genHistory(c)
+		decorateHistory(c, h)
 		checkHistory(c, "C05", h)
 	}
 }
@@ -637,6 +873,16 @@ func checkHistory(c *Ctx, which string, h *history) {
 			}
 		}
 		_ = lazyTotal
+		// ---- C05: a sequence of steps on ONE built segment; every output written must read back the samples added
+		if which == "C05" && h.seq != "" {
+			for _, is := range runSeq(h, ib.Bytes()) {
+				if is.kind == "build" {
+					msg = "build-err:" + is.got
+					return
+				}
+				fail("C05", is.kind, is.what, is.got, "")
+			}
+		}
 	})
 	key := ""
 	if maxPerTrack >= 2 {
@@ -647,6 +893,18 @@ func checkHistory(c *Ctx, which string, h *history) {
 	c.Count(fmt.Sprintf("opt=%v", h.opt))
 	for _, f := range h.frags {
 		c.Count("mode=" + f.mode)
+		if f.cut != nil {
+			c.Count("slice-api-batches>1")
+		}
+	}
+	if h.buf != "" {
+		c.Count("buf=" + h.buf)
+	}
+	if strings.Count(h.seq, "w")+strings.Count(h.seq, "s") > 1 {
+		c.Count("seq:outputs>1")
+	}
+	if strings.Contains(h.seq, "o") {
+		c.Count("seq:caller-optimize")
 	}
 	if len(c.St.Samples) < 4 {
 		c.Sample(req)
